@@ -3290,6 +3290,16 @@ fn generate_constraints_expr(
                 return;
             };
 
+            // a function value cannot implement Index; typing `f[0]` as a call of index_get on a
+            // function type would tie the function's own type into its result (an infinite type)
+            if let Some(PotentialType::Function(..)) = accessed_ty.single() {
+                ctx.errors.push(Error::GenericWithNode {
+                    msg: "Can't index a function".to_string(),
+                    node: accessed.node(),
+                });
+                return;
+            }
+
             let (index_get_method, _) = index_iface_decl.get_method_by_name("index_get").unwrap();
             let memfn_instance_ty = tyvar_of_iface_method(
                 ctx,
